@@ -193,7 +193,7 @@ impl Prop for C07Prop {
             Section {
                 name: "trees",
                 kind: SectionKind::Random {
-                    cases: tier.pick(100_000, 2_000_000),
+                    cases: tier.pick(100_000, 1_000_000),
                     maxlen: 600,
                 },
                 exhaustive: false,
@@ -202,7 +202,7 @@ impl Prop for C07Prop {
             Section {
                 name: "eq_pairs",
                 kind: SectionKind::Random {
-                    cases: tier.pick(60_000, 1_000_000),
+                    cases: tier.pick(60_000, 500_000),
                     maxlen: 400,
                 },
                 exhaustive: false,
